@@ -44,6 +44,7 @@ type VC struct {
 	Assumed map[string]bool // assumed contracts / axioms used
 	curPos  token.Position
 	tags    []string
+	tagsFn  []string
 	pureTerm map[string]string
 	axioms  []string
 }
@@ -335,7 +336,7 @@ func (vc *VC) sliceLen(sliceSort, t string) string {
 	key := "len:" + l
 	if !vc.wf[key] && !strings.Contains(t, "?") { // '?' marks bound variables
 		vc.wf[key] = true
-		vc.fact(fmt.Sprintf("(>= %s 0)", l))
+		vc.fact(fmt.Sprintf("(and (>= %s 0) (<= %s 4611686018427387904))", l, l))
 		vc.fact(fmt.Sprintf("(=> (nil_%s %s) (= %s 0))", sliceSort, t, l))
 	}
 	return l
